@@ -2,10 +2,11 @@
 \* meets the C18 contract for the whole product of the property's quantifier
 SPECIFICATION Spec
 CONSTANTS
-  Schemes = {"udp", "tcp", "tcp+pipeline", "tls", "tls+pipeline", "https", "h3", "quic"}
-  Ports = {1, 53, 443, 853, 5353, 65535}
+  Schemes = {"udp", "tcp", "tcp+pipeline", "tls", "tls+pipeline", "https", "h3", "quic", "doq"}
+  Ports = {1, 53, 443, 853, 65535, 65589, 70000}
   TrimCut = 1
   DialPortRule = "url"
+  PortCheck = TRUE
   Export = FALSE
 INVARIANTS TypeOK C18Inv PortDefined BracketInsensitive SniNeverDial DefaultOnlyWhenOmitted
 CHECK_DEADLOCK FALSE
